@@ -4,8 +4,48 @@
 //!
 //! dbprobe open|mem <queries-file>
 //! dbprobe memx <queries-file> <threads>
+//! dbprobe shared <queries-file> <threads>
 use anything::{parse, query, Db, Description, Options};
 use std::io::Write;
+
+// One database shared by several threads that look things up at the same time — only when the type allows
+// it: `Db` is `Sync` today, a change may make it not so (then this mode reports "unsupported" instead of
+// failing to compile).  Autoref specialisation: the `Sync` impl is found first, the fallback otherwise.
+struct Shared<'a, T>(&'a T);
+trait ConcurrentIfSync<T> {
+    fn concurrent(&self, threads: usize, queries: &[&str], f: &(dyn Fn(&T, &str) -> String + Sync)) -> Option<Vec<Vec<String>>>;
+}
+impl<'a, T: Sync> ConcurrentIfSync<T> for Shared<'a, T> {
+    fn concurrent(&self, threads: usize, queries: &[&str], f: &(dyn Fn(&T, &str) -> String + Sync)) -> Option<Vec<Vec<String>>> {
+        let db = self.0;
+        let barrier = std::sync::Barrier::new(threads);
+        Some(std::thread::scope(|s| {
+            let hs: Vec<_> = (0..threads)
+                .map(|t| {
+                    let barrier = &barrier;
+                    s.spawn(move || {
+                        barrier.wait();
+                        // every thread walks the query list from another starting point
+                        let n = queries.len().max(1);
+                        let mut out = vec![String::new(); queries.len()];
+                        for k in 0..queries.len() {
+                            let i = (k + t * n / threads) % n;
+                            out[i] = f(db, queries[i]);
+                        }
+                        out
+                    })
+                })
+                .collect();
+            hs.into_iter().map(|h| h.join().unwrap_or_default()).collect()
+        }))
+    }
+}
+trait ConcurrentFallback<T> {
+    fn concurrent(&self, _threads: usize, _queries: &[&str], _f: &(dyn Fn(&T, &str) -> String + Sync)) -> Option<Vec<Vec<String>>> {
+        None
+    }
+}
+impl<'a, T> ConcurrentFallback<T> for &Shared<'a, T> {}
 
 fn main() {
     let args: Vec<String> = std::env::args().collect();
@@ -42,6 +82,33 @@ fn main() {
                     }
                 }
                 Err(e) => writeln!(out, "OPEN-FAILED {}", e).unwrap(),
+            }
+        }
+        return;
+    }
+    if args[1] == "shared" {
+        let n: usize = args.get(3).and_then(|s| s.parse().ok()).unwrap_or(8);
+        let text = std::fs::read_to_string(&args[2]).expect("queries file");
+        let queries: Vec<&str> = text.lines().collect();
+        let db = match Db::in_memory() {
+            Ok(db) => db,
+            Err(e) => {
+                println!("OPEN-FAILED {:#}", e);
+                std::process::exit(3);
+            }
+        };
+        let blocks = (&Shared(&db)).concurrent(n, &queries, &|db: &Db, q: &str| verif_harness::probe::answer(db, q));
+        let out = std::io::stdout();
+        let mut out = out.lock();
+        match blocks {
+            None => writeln!(out, "UNSUPPORTED Db is not Sync").unwrap(),
+            Some(blocks) => {
+                for (i, b) in blocks.iter().enumerate() {
+                    writeln!(out, "=== thread {}", i).unwrap();
+                    for l in b {
+                        writeln!(out, "{}", l).unwrap();
+                    }
+                }
             }
         }
         return;
